@@ -12,7 +12,12 @@ import typing
 sys.path.insert(0, os.environ.get("C18_PKG", "/nonexistent"))
 import pt  # noqa: E402
 
+import numpy as _np  # noqa: E402
+
 FIELDS = {"a": (0, 255), "b": (-2048, 2047), "c": (0, 7), "d": (-(2 ** 63), 2 ** 63 - 1), "t": (0, 2 ** 17 - 1)}
+# the numpy scalar type each field's annotation names (the next standard width): a value may arrive as such a scalar, and a scalar of that
+# type can still be outside the DSDL range (uint12 lives in uint16)
+NPTYPE = {"a": _np.uint8, "b": _np.int16, "c": _np.uint8, "d": _np.int64, "t": _np.uint32}
 FIELD = os.environ.get("C18_FIELD", "b")
 LO, HI = FIELDS[FIELD]
 
@@ -21,7 +26,16 @@ def near_bounds(v: int) -> bool:
     return (LO - 3 <= v <= LO + 3) or (HI - 3 <= v <= HI + 3) or (-1 <= v <= 1 and LO <= 0 <= HI)
 
 
-def setter_validates(v: int) -> bool:
+def _as_given(v: int, as_np: bool) -> typing.Any:
+    """the value as a Python int, or (when it fits) as a numpy scalar of the field's storage type"""
+    if as_np:
+        info = _np.iinfo(NPTYPE[FIELD])
+        if info.min <= v <= info.max:
+            return NPTYPE[FIELD](int(v))
+    return v
+
+
+def setter_validates(v: int, as_np: bool) -> bool:
     """
     pre: near_bounds(v)
     post: _
@@ -29,7 +43,7 @@ def setter_validates(v: int) -> bool:
     o = pt.S_1_0()
     before = getattr(o, FIELD)
     try:
-        setattr(o, FIELD, v)
+        setattr(o, FIELD, _as_given(v, as_np))
         raised = False
     except ValueError:
         raised = True
@@ -39,13 +53,13 @@ def setter_validates(v: int) -> bool:
     return inr and getattr(o, FIELD) == v
 
 
-def constructor_validates(v: int) -> bool:
+def constructor_validates(v: int, as_np: bool) -> bool:
     """
     pre: near_bounds(v)
     post: _
     """
     try:
-        o = pt.S_1_0(**{FIELD: v})
+        o = pt.S_1_0(**{FIELD: _as_given(v, as_np)})
         raised = False
     except ValueError:
         raised = True
